@@ -263,6 +263,14 @@ func runC05(in sx.SX) (sx.SX, string) {
 				if a, b := show(t.TokenizeBuffer(text)), show(f2.TokenizeBuffer(text)); a != b {
 					fail = fmt.Sprintf("step %d: TokenizeBuffer(%s) on the reused instance gave %s, on a fresh instance %s", i, sx.Quote(text), a, b)
 				}
+				// one scanner object used twice: SetReader(s), a look-ahead, s.Reset(), TokenizeStream(s)
+				sc := sio.NewStringScanner(text)
+				t.SetReader(sc)
+				t.HasNextToken()
+				sc.Reset()
+				if a, b := show(t.TokenizeStream(sc)), show(f2.TokenizeBuffer(text)); a != b && fail == "" {
+					fail = fmt.Sprintf("step %d: SetReader(s), HasNextToken(), s.Reset(), TokenizeStream(s) on the reused instance gave %s, a fresh instance gives %s", i, a, b)
+				}
 			}
 			out = append(out, got)
 		}
